@@ -71,7 +71,7 @@ def main():
         name = "seeded/" + os.path.basename(d)
         if pat and pat not in name:
             continue
-        props = [os.path.basename(d).split("-")[0]]
+        props = [re.match(r"C\d\d", os.path.basename(d)).group(0)]
         if os.path.exists(meta):
             m = json.load(open(meta))
             props = m.get("run_checks") or [m.get("property", props[0])]
